@@ -44,8 +44,7 @@ def digest (c : Ctl) (res : String) (msgs : List Msg) : String :=
   let st := c.ops.map (fun o => s!"{o.id}:{o.status.name}")
   let regions := PdModel.Builder.sortIds (dedup (c.ops.map (·.region)))
   let rec_ := regions.filterMap (fun r =>
-    if (c.runningOn r).isSome then none
-    else match c.records.find? (fun x => x.1 == r) with
+    match c.records.find? (fun x => x.1 == r) with
       | some x => some s!"{r}:{x.2}:{match c.getOp x.2 with | some o => o.status.name | none => "?"}"
       | none => none)
   let w := c.waiting.flatten.map toString
@@ -156,6 +155,9 @@ def modelStep (d : DState) (ws : List String) (impl : String := "") : DState × 
           ({ d with ctl := c.setOp o' },
            s!"wins={wins} winner={winner} final={o'.status.name} rec={if wins == 0 then "-" else o'.status.name}")
       | _, _ => (d, "bad-op")
+    | "influence" =>
+      let c' := (stepEv c .influence).1
+      ({ d with ctl := c' }, digest c' "ok" [])
     | "sleep" =>
       ((match stepEv c (.sleep (natArg (kvGet args "ms"))) with | (c', _) => { d with ctl := c' }), "ok")
     | "delregion" =>
@@ -269,7 +271,7 @@ def monitorStep (m : C09.Mon) (ws : List String) (impl : String) : C09.Mon × Li
         (m, (C09.raceComplaints ⟨natArg (kvGet iw "wins"), fin, recs⟩).map (fun x => x ++ s!" op={natArg (kvGet args "id")} kinds={kvGet args "kinds"}"))
       | none => (m, ["sig=C09.unparsable-race-report"])
     | "delregion" => (C09.noteRegionGone m r, [])
-    | "add" | "addw" | "promote" | "hb" | "push" | "rm" =>
+    | "add" | "addw" | "promote" | "hb" | "push" | "rm" | "influence" =>
       match parseDigest impl with
       | none => (m, [])
       | some seen =>
